@@ -39,6 +39,7 @@ def cfg5(**kw) -> dict:
              offset=0, lags=0, leads=0, faults=False, finite=False,
              entry='solve',     # solve | solve_period
              distinct=False,    # assume pairwise distinct span labels
+             tracer=False,      # TracerMixin model solved with trace=True (C17: any solve method)
              twin=None)
     c.update(kw)
     return c
@@ -100,8 +101,17 @@ def _cells(cfg, symbolic=True, inp=None):
     return {n: [np.float64(x) for x in inp['cells'][n]] for n in names}
 
 
+_TRACED: dict = {}
+
+
 def _model(cfg, span, cells, scripts, dtype):
     M = make_scripted(cfg['N'], with_z=False, lags=cfg['lags'], leads=cfg['leads'])
+    if cfg.get('tracer'):
+        key = (cfg['N'], cfg['lags'], cfg['leads'])
+        if key not in _TRACED:
+            from fsic.extensions.model import TracerMixin
+            _TRACED[key] = type('TracedScripted', (TracerMixin, M), {})
+        M = _TRACED[key]
     m = M(span, dtype=dtype)
     for n, vals in cells.items():
         arr = m.__dict__['_' + n]
@@ -112,8 +122,34 @@ def _model(cfg, span, cells, scripts, dtype):
 
 
 def _opts(cfg, tol, min_iter):
-    return dict(min_iter=min_iter, max_iter=cfg['B'], tol=tol, offset=cfg['offset'], failures=cfg['failures'],
-                errors=cfg['errors'], catch_first_error=cfg['cfe'])
+    o = dict(min_iter=min_iter, max_iter=cfg['B'], tol=tol, offset=cfg['offset'], failures=cfg['failures'],
+             errors=cfg['errors'], catch_first_error=cfg['cfe'])
+    if cfg.get('tracer'):
+        o['trace'] = True
+    return o
+
+
+def _trace_diff(cfg, m1, m2, symbolic) -> List[str]:
+    """solve(trace=True) must leave the same traces as the sequence of solve_t(trace=True) calls."""
+    bad = []
+    for j in range(cfg['L']):
+        a, b = m1.trace[j], m2.trace[j]
+        if list(a.index) != list(b.index):
+            bad.append(f'trace labels of period {j}: {list(a.index)} vs {list(b.index)}')
+            continue
+        if a.values.shape != b.values.shape:
+            bad.append(f'trace shape of period {j}: {a.values.shape} vs {b.values.shape}')
+            continue
+        for x, y in zip(a.values.flat, b.values.flat):
+            if symbolic:
+                xt, yt = lf_term(x), lf_term(y)
+                if not xt.eq(yt) and cur()._check(xt != yt) == 'sat':
+                    bad.append(f'trace values of period {j} differ')
+                    break
+            elif not lf._same_bits(float(x), float(y)):
+                bad.append(f'trace values of period {j} differ')
+                break
+    return bad
 
 
 def _run(fn):
@@ -270,6 +306,8 @@ def explore5(cfg: dict) -> dict:
             t2 = list(reversed(t2))
         if t1 != t2:
             bad.append(f'order of hook/evaluation calls {t1} vs {t2}')
+        if cfg.get('tracer'):
+            bad += _trace_diff(cfg, m1, m2, True)
         # explicit containment: after an exception, periods never visited are bit-identical to the start
         visited = set(m2.__dict__['_attempted'])
         init = _cells(cfg)
@@ -410,6 +448,8 @@ def replay5(cfg: dict, inp: dict) -> dict:
         t2 = list(reversed(t2))
     if t1 != t2:
         bad.append(f'order of calls {t1} vs {t2}')
+    if cfg.get('tracer'):
+        bad += _trace_diff(cfg, m1, m2, False)
     return {'impl': _pub(a), 'ref': _pub(b), 'bad': bad}
 
 
@@ -438,6 +478,12 @@ def configs(tier: str):
                             out.append(cfg5(span=span, L=L, start=s_, end=e_, errors=errors, failures=failures, B=B,
                                             faults=(L <= 2 and B == 1),
                                             distinct=(span == 'nd_obj_sym' and 'sym' in (s_, e_))))
+    # tracer-extended models: solve(trace=True) == the sequence of solve_t(trace=True), traces included
+    for span in ('range', 'list_sym'):
+        for L in (2, 3):
+            for errors, failures in (('raise', 'raise'), ('skip', 'ignore'), ('ignore', 'ignore')):
+                out.append(cfg5(span=span, L=L, errors=errors, failures=failures, tracer=True, faults=(L == 2)))
+                out.append(cfg5(span=span, L=L, start='sym', end='sym', errors=errors, failures=failures, tracer=True))
     # empty span
     for span in ('range', 'list_str', 'nd_int'):
         for st in ('none', 'sym' if span != 'list_str' else 'zz'):
